@@ -1,4 +1,5 @@
 """C11 — erasure coding: any 32 of a slice's 64 shreds restore it (structural part)."""
+import re
 from engine import guards as G
 from engine import mir
 from . import common as K
@@ -35,7 +36,14 @@ def assoc_const(prog, impl_ty, name):
 
 
 def check(run):
+    from . import detectors as _DN
+    _DN.ob_new_fields(run, "O11.14", ['shredder'], 'the coders are reused for every slice (shredder pool): state left behind by one slice must not reach the next')
+    from . import detectors as _DC
+    _DC.ob_narrowing_casts(run, "O11.13", ['shredder'], 'shard counts, sizes and indices: a truncated length pads or splits the payload at the wrong place')
+    from . import detectors as _DL
+    _DL.ob_loop_exits(run, "O11.11", ['shredder'], 'every shard has to be encoded / restored: a loop that stops early leaves shreds missing')
     ob_decode_tail(run, "O11.10")
+    ob_restored_size_bound(run, "O11.12")
     ob_payload_decode_gate(run, "O11.8")
     ob_coder_reset(run, "O11.9")
     ob_validated_set(run, "O11.7")
@@ -477,6 +485,53 @@ def ob_coder_reset(run, oid):
         fam_users = users or [x for fb in prog.family(RS + "::" + fn) for x in fb.calls() if x.name.rsplit("::", 1)[-1] in ("add_original_shard", "add_recovery_shard")]
         o.check(bool(fam_users) and all(b.dominates(c.bb, x.bb) for x in users), "%s|reset|before-shards" % fn, "reset dominates every add_*_shard", c.span)
         o.check(K.mentions_call(b.operand_term(c.args[3]), size_src), "%s|reset|size-of-this-slice" % fn, "the shard size passed to reset is computed from this call's input", c.span)
+
+
+def ob_restored_size_bound(run, oid):
+    """ReedSolomonCoder::deshred: the reassembled payload (received AND restored data shards) never exceeds the maximum a slice may carry"""
+    prog = run.program("lib")
+    o = run.ob(oid, "every shard appended to the reassembled payload is behind `payload.len() + shard.len() <= MAX_DATA_PER_SLICE_AFTER_PADDING` for that payload and that shard "
+                    "(or behind DATA_SHREDS * shard size <= the maximum): the bound covers restored shards, not only received ones",
+               "a Byzantine leader can sign shards larger than a slice may carry and withhold the data shards: a bound computed from what was received accepts the slice, and the "
+               "oversized regenerated shreds no longer fit a datagram (the repair responder panics on the MTU assertion)", floor=2)
+    b = prog.body(RS + "::deshred")
+    if b is None:
+        o.missing("ReedSolomonCoder::deshred")
+        return
+    ext = [c for c in b.calls() if c.name.rsplit("::", 1)[-1] in ("extend_from_slice", "extend", "append", "push")
+           and re.search(r"Vec<u8(, [^<>]*)?>$", b.local_ty((c.raw["args"][0].get("m") or c.raw["args"][0].get("c") or {"l": 0})["l"]))]
+    # the payload vector: the one returned inside Ok((payload, ..))
+    rets = [rv for (_bb, rv, _sp, _dst) in b.aggregates("core::result::Result", "Ok")]
+    if not ext:
+        o.missing("append to the reassembled payload in ReedSolomonCoder::deshred")
+        return
+    maxes = ("MAX_DATA_PER_SLICE_AFTER_PADDING", "MAX_DATA_PER_SLICE")
+    n = 0
+    for c in ext:
+        V = K.peel(b.operand_term(c.args[0]))
+        S = K.peel(b.operand_term(c.args[1]))
+        if not K.mentions_call(V, "with_capacity") and not K.mentions_call(V, "Vec::new") and V[0] != "local":
+            continue
+        n += 1
+        ok = False
+        for a in G.guard_atoms(b, c.bb, prog):
+            if a[0] != "lt" or a[2] is not False:
+                continue
+            bound, total = a[1][0], a[1][1]
+            if not (isinstance(bound, tuple) and bound[0] == "const" and len(bound) > 3 and str(bound[3]).rsplit("::", 1)[-1] in maxes):
+                continue
+            lens = [x for x in mir.walk(total) if isinstance(x, tuple) and x and x[0] == "call" and x[1].rsplit("::", 1)[-1] == "len"]
+            has_v = any(K.peel(x[2][0]) == V or D._strip_ids(K.peel(x[2][0])) == D._strip_ids(V) for x in lens)
+            has_s = any(K.peel(x[2][0]) == S or D._strip_ids(K.peel(x[2][0])) == D._strip_ids(S) for x in lens)
+            adds = any(isinstance(x, tuple) and x and x[0] == "bin" and x[1].startswith("Add") for x in mir.walk(total))
+            mul = [x for x in mir.walk(total) if isinstance(x, tuple) and x and x[0] == "bin" and x[1].startswith("Mul")]
+            by_count = any(any(isinstance(y, tuple) and y and y[0] == "const" and len(y) > 3 and str(y[3]).endswith("::DATA_SHREDS") for y in (m[2], m[3])) for m in mul) and bool(lens)
+            if (has_v and has_s and adds) or by_count:
+                ok = True
+        o.check(ok, "ReedSolomonCoder::deshred|append|size-bound|%d" % (n - 1), "appending a shard to the reassembled payload is behind the size bound for that payload and shard", c.span,
+                {"guards": G.atoms_show(G.guard_atoms(b, c.bb, prog))[-3:]})
+    o.check(n >= 1, "ReedSolomonCoder::deshred|append|found", "%d append site(s) of the reassembled payload examined" % n, b.span)
+    o.check(bool(b.aggregates(SH + "reed_solomon::ReedSolomonDeshredError", "TooMuchData")), "ReedSolomonCoder::deshred|TooMuchData", "exceeding it is TooMuchData", b.span)
 
 
 def ob_decode_tail(run, oid):
